@@ -138,6 +138,9 @@ class StmtMixin:
             if isinstance(v, tuple): raise Undecided('untyped list of lists')
             if isinstance(v, VNone) and dk == 'ref': v = VRef(NULL)          # declared: None | object reference
             if isinstance(v, (VNone, VInt)) and dk == 'optint': v = VOpt(self.toopt(v))
+            if dk == 'text' and isinstance(v, VStr):          # declared: a text assembled in whole lines (models_text)
+                from .models_text import text_append, empty_text
+                v = text_append(self, empty_text(), v, p, line)
             p.env[tgt.id] = v
             p.ghost.pop('unbound:' + tgt.id, None)
             if tgt.id in p.alias:
@@ -244,7 +247,10 @@ class StmtMixin:
         if isinstance(cur, VExt) and cur.tag == 'LpProblem' and isinstance(s.op, ast.Add):
             self.lp_add_impl(self, r, p, s.lineno)
             return [('normal', p, None)]
-        if isinstance(cur, VStr) and isinstance(s.op, ast.Add) and isinstance(r, VStr):
+        if isinstance(cur, VText) and isinstance(s.op, ast.Add) and isinstance(r, VStr):
+            from .models_text import text_append
+            v = text_append(self, cur, r, p, s.lineno)
+        elif isinstance(cur, VStr) and isinstance(s.op, ast.Add) and isinstance(r, VStr):
             v = self.str_append(cur, r, p, s.lineno)
         elif isinstance(cur, (VAff, VLpVar)) or isinstance(r, (VAff, VLpVar)):
             v = self.lp_binop(s.op, cur, r, p, s.lineno)
